@@ -198,6 +198,14 @@ Fixpoint dest_from (A : list entry) (i : N) (seen : amap N) : dmap :=
   end.
 Definition dest_of (A : list entry) : dmap := dest_from A 0 [].
 
+(* ---- executable specification of the request set (C02 reqs_exact) ---- *)
+(* b is present in the old listing with the same identity key *)
+Definition unchanged_b (d : differ) (LA : list stat) (b : stat) : bool :=
+  match lookup (st_path b) LA with Some a => same_file d a b | None => false end.
+(* the regular files (no Linkname) of the source that are new or whose identity differs *)
+Definition reqs_spec (d : differ) (LA LB : list stat) : list bytes :=
+  map st_path (filter (fun b => wants_content b && negb (unchanged_b d LA b)) LB).
+
 Inductive rmode := Fresh | Merge.       (* ReceiveOpt.Merge: the destination walker is emptyWalker *)
 
 Record dstate := {
